@@ -11,6 +11,7 @@ import itertools
 import logging
 import os
 import shutil
+import uuid
 from enum import Enum, unique
 from collections import defaultdict
 from concurrent.futures import ProcessPoolExecutor
@@ -437,6 +438,24 @@ class ReadAssignmentAggregator:
         self.read_stat_counter.print_start("Read assignment statistics")
 
 
+def load_indexed_reference(reference, fai_file_name):
+    # The index of a reference FASTA lives next to it: it is shared by every IsoQuant run that uses this reference,
+    # possibly at the same time, and it outlives a killed run. pyfaidx writes a missing or outdated index in place (the
+    # file is truncated when it is opened and filled when it is closed): a run - or a worker of a run - that opens the
+    # index meanwhile, and every run after a kill in that window, gets an empty or partial index that is newer than the
+    # FASTA file, and either fails with KeyError or silently works with fewer sequences. So the index is built under
+    # a name of our own and the complete file is moved into place.
+    if not os.path.exists(fai_file_name) or os.path.getmtime(fai_file_name) < os.path.getmtime(reference):
+        tmp_fai_file_name = "%s.%s.tmp" % (fai_file_name, uuid.uuid4().hex)
+        try:
+            Fasta(reference, indexname=tmp_fai_file_name).close()
+            os.replace(tmp_fai_file_name, fai_file_name)
+        finally:
+            if os.path.exists(tmp_fai_file_name):
+                os.remove(tmp_fai_file_name)
+    return Fasta(reference, indexname=fai_file_name)
+
+
 # Class for processing all samples against gene database
 class DatasetProcessor:
     def __init__(self, args):
@@ -473,7 +492,7 @@ class DatasetProcessor:
             low_ext = outer_ext.lower()
             if low_ext in ['.gz', '.gzip', '.bgz']:
                 try:
-                    self.reference_record_dict = Fasta(self.args.reference, indexname=args.fai_file_name)
+                    self.reference_record_dict = load_indexed_reference(self.args.reference, args.fai_file_name)
                 except UnsupportedCompressionFormat:
                     gunzipped_reference = os.path.join(args.output, ref_name)
                     # always unpack, also when resuming: a file with this name may be the partial copy left by a
@@ -482,9 +501,12 @@ class DatasetProcessor:
                         shutil.copyfileobj(gzip.open(self.args.reference, "rt"), outf)
                     logger.info("Loading uncompressed reference from " + gunzipped_reference)
                     self.args.reference = gunzipped_reference
-                    self.reference_record_dict = Fasta(self.args.reference, indexname=args.fai_file_name)
+                    # the uncompressed copy is private to this run and so is its index: an index next to the shared
+                    # .gz file would be older than every fresh copy, i.e. rewritten by every run under the others' feet
+                    args.fai_file_name = gunzipped_reference + ".fai"
+                    self.reference_record_dict = load_indexed_reference(self.args.reference, args.fai_file_name)
             else:
-                self.reference_record_dict = Fasta(self.args.reference, indexname=args.fai_file_name)
+                self.reference_record_dict = load_indexed_reference(self.args.reference, args.fai_file_name)
         else:
             self.reference_record_dict = None
 
